@@ -12,6 +12,20 @@ import isolate
 from core import Record, bits_equal
 
 
+def count_individuals(obj):
+    """number of distinct pymoo Individual objects reachable from `obj` (walked by the pickle machinery)"""
+    from pymoo.core.individual import Individual
+    seen = set()
+
+    class _P(pickle.Pickler):
+        def persistent_id(self, o):
+            if isinstance(o, Individual):
+                seen.add(id(o))
+            return None
+    _P(io.BytesIO()).dump(obj)
+    return len(seen)
+
+
 def build(c):
     prob = comp_gen.make_problem(c)
     u = c.get("user_ops")
@@ -351,16 +365,17 @@ class Resume:
             c["user_ops"] = [None, "mutation", "repair", "crowding", "repair-object", "registered-repair"][rng.randint(6)] if c["algo"] not in ("ga", "ea-dex") else None
             c["method"] = Resume.METHODS[t % 3]
             c["history"] = bool(rng.randint(3) == 0)
-            if t % 30 == 7 and c["algo"] not in ("ga", "ea-dex", "nsder"):
+            if t % 30 == 7:
                 # one long run: hundreds of generations on a small population, checkpointed every 75 generations
                 # (object graphs that grow with the run length)
                 c["n_gen"] = 460
-                # enough variables and members for offspring to keep entering during the whole run
-                c["pop_size"] = 12
-                c["n_var"] = 8
+                # a fixed recipe under which offspring keep entering during the whole run (the long run is about the object
+                # graph of the algorithm, not about configurations): 12 members, 8 variables, two conflicting objectives
+                c["algo"] = ["nsde", "gde3"][(t // 30) % 2]
+                c["pop_size"], c["n_var"], c["n_obj"] = 12, 8, 2
                 c["xl"], c["xu"] = np.zeros(8), np.ones(8)
-                if 1 + 2 * (c["y"] + (1 if "-to-" in c["sel"] else 0)) >= c["pop_size"]:
-                    c["sel"], c["y"] = "rand", 1
+                c["sel"], c["y"], c["cross"], c["CR"], c["Fcfg"], c["gamma"] = "rand", 1, "bin", 0.9, (0.3, 1.0), 1e-4
+                c["n_ieq"], c["surv_cls"], c["metric"], c["pm"], c["fscale"], c["shift"] = 0, "rnc", "cd", False, None, 0.0
                 c["every"] = 75
                 c["history"] = False
                 c["n_off"] = None
@@ -396,6 +411,11 @@ class Resume:
                 base.append(snap(algo))
                 if len(base) % every == 0:
                     saves.append((len(base), dump(algo), np.random.get_state()))
+            if every == 1 and not c["history"] and c["algo"] not in ("ga", "ea-dex"):
+                n_ind_ = count_individuals(algo)
+                if n_ind_ > 3 * int(c["pop_size"]) + 4:
+                    rec.corr_breaks = ["the algorithm object holds %d Individual objects after generation %d; the state of the run "
+                                       "model (population, last offspring, optimum) has at most %d" % (n_ind_, len(base), 3 * int(c["pop_size"]) + 4)]
             if every > 1:
                 rec.tags.add("long-run")
                 saves.append((len(base), None, None))       # sentinel (the last entry is never resumed)
@@ -426,14 +446,14 @@ class Resume:
                 # If it does, some later checkpoint cannot be taken at all: search for it on a longer run of the same kind.
                 try:
                     sz = Resume._probe_growth(c, dump)
-                    rec.out["pickle_sizes"] = sz["sizes"]
+                    rec.out["individuals_held"] = [sz["individuals"], sz["bound"]]
                     if sz.get("failed"):
                         bad.append(sz["failed"])
                     elif sz.get("grows"):
                         # the state of the run model (population, optimum, counters) is bounded; the real object's is not
                         rec.corr_breaks = [sz["grows"]]
                 except Exception as e:
-                    rec.out["pickle_sizes"] = "probe failed: %s" % type(e).__name__
+                    rec.out["individuals_held"] = "probe failed: %s" % type(e).__name__
             rec.out["bad"] = bad
             rec.out["points"] = len(saves) - 1
             if c["history"]:
@@ -459,21 +479,21 @@ class Resume:
 
     @staticmethod
     def _probe_growth(c, dump, extra=4000, step=200):
-        """sizes of pickle.dumps(algorithm) after generations 50 and n_gen of a fresh run; if the later one is clearly larger
-        the run is continued for up to `extra` generations and a checkpoint is attempted every `step` generations: the first
-        one that cannot be taken is a failing input of C18 (never reached on a tree whose object graph does not grow)"""
+        """The state of the run model - population, the last offspring, the optimum - holds at most 3 * pop_size individuals.
+        Counts the Individual objects reachable from the real algorithm object after the last generation of a fresh run; if
+        there are more, the object graph grows with the run: the run is continued for up to `extra` generations and a
+        checkpoint is attempted every `step` generations - the first one that cannot be taken is a failing input of C18
+        (never reached on a tree whose object graph does not grow)"""
         prob, algo = build(c)
         algo.setup(prob, termination=("n_gen", c["n_gen"] + extra), seed=c["seed"], verbose=False)
-        sizes = {}
         g = 0
         while algo.has_next() and g < c["n_gen"]:
             algo.next()
             g += 1
-            if g in (50, c["n_gen"]):
-                sizes[g] = len(pickle.dumps(algo))
-        out = {"sizes": sizes}
-        s0, s1 = sizes.get(50), sizes.get(c["n_gen"])
-        if s0 is None or s1 is None or s1 <= 1.25 * s0 + 4096:
+        n_ind = count_individuals(algo)
+        bound = 3 * int(c["pop_size"]) + 4
+        out = {"individuals": n_ind, "bound": bound}
+        if n_ind <= bound:
             return out
         while algo.has_next() and g < c["n_gen"] + extra:
             algo.next()
@@ -482,13 +502,13 @@ class Resume:
                 try:
                     dump(algo)
                 except Exception as e:
-                    out["failed"] = ("no %s checkpoint can be taken after generation %d: %s (the pickled algorithm grows with the "
-                                     "run: %d bytes after generation 50, %d after generation %d)" % (
-                                         c["method"], g, type(e).__name__, s0, s1, c["n_gen"]))
+                    out["failed"] = ("no %s checkpoint can be taken after generation %d: %s (the algorithm object holds on to ever more "
+                                     "individuals: %d after generation %d, the run model's state has at most %d)" % (
+                                         c["method"], g, type(e).__name__, n_ind, c["n_gen"], bound))
                     return out
-        out["grows"] = ("the pickled algorithm object grows with the run length (%d bytes after generation 50, %d after generation %d) "
-                        "although the state of the run model - population, optimum, counters - does not; every %s checkpoint up to "
-                        "generation %d could still be taken" % (s0, s1, c["n_gen"], c["method"], g))
+        out["grows"] = ("the algorithm object holds %d Individual objects after generation %d although the state of the run model - "
+                        "population, last offspring, optimum - has at most %d; every %s checkpoint up to generation %d could still be "
+                        "taken" % (n_ind, c["n_gen"], bound, c["method"], g))
         return out
 
     @staticmethod
